@@ -19,7 +19,8 @@ FIELD_VALUES = [b"a", b"text/plain", b"x y", b"\xe9t\xe9", b"a, b", b"", b"1", b
 
 MUT_REQLINE = ["target_bad_ipv6", "target_odd_chars", "lead_crlf", "lead_ws", "method_lower", "version_other", "version_absent", "reqline_extra_sp",
                "reqline_tab", "reqline_trailing_ws", "reqline_bare_lf", "reqline_bare_cr"]
-MUT_HEADER = ["hdr_bare_lf_term", "hdr_bare_cr_term", "hdr_lf_in_value", "hdr_cr_in_value", "head_end_lflf",
+SEPARATORS = [b"(", b")", b",", b"/", b":", b";", b"<", b"=", b">", b"?", b"@", b"[", b"\\", b"]", b"{", b"}", b'"']
+MUT_HEADER = ["name_separator", "hdr_bare_lf_term", "hdr_bare_cr_term", "hdr_lf_in_value", "hdr_cr_in_value", "head_end_lflf",
               "head_end_crlflf", "ws_before_colon", "name_space", "name_empty", "name_paren", "no_colon_line",
               "obs_fold", "ws_first_header_line", "ctl_in_value", "nul_in_value", "dup_host", "dup_content_type"]
 MUT_CL = ["dup_cl_same", "dup_cl_diff", "cl_list_same", "cl_list_diff", "cl_plus", "cl_minus", "cl_hex",
@@ -34,7 +35,7 @@ MUT_CHUNK = ["csize_junk_then_ext", "csize_bws_then_ext", "csize_leading_crlf", 
              "cext_empty_val", "cext_unterminated_quote", "cext_ctl", "cext_lf", "cext_bws", "cext_bws2",
              "cdata_no_crlf", "cdata_lf_only", "cdata_cr_only", "last_ext", "last_00", "last_bare_lf",
              "trailer_valid", "trailer_bare_lf", "trailer_no_colon", "trailer_ws_before_colon", "trailer_bad_name",
-             "trailer_obs_fold", "trailer_end_lf", "trailer_ctl"]
+             "trailer_obs_fold", "trailer_end_lf", "trailer_ctl", "trailer_separator_in_name", "cext_separator_in_name"]
 ALL_MUTATIONS = MUT_REQLINE + MUT_HEADER + MUT_CL + MUT_TE + MUT_CHUNK
 
 STRICT_REJECT = set("""hdr_bare_lf_term hdr_bare_cr_term hdr_lf_in_value hdr_cr_in_value head_end_lflf head_end_crlflf
@@ -43,7 +44,8 @@ STRICT_REJECT = set("""hdr_bare_lf_term hdr_bare_cr_term hdr_lf_in_value hdr_cr_
  te_gzip te_identity te_gzip_chunked te_chunked_gzip te_chunked_chunked te_two_fields te_vt te_xchunked
  csize_empty csize_plus csize_0x csize_ws_before csize_ws_after csize_bare_lf csize_nonascii csize_huge
  csize_underscore csize_vt cext_semicolon_only cext_no_name cext_empty_val cext_unterminated_quote cext_ctl cext_lf
- cdata_no_crlf cdata_lf_only cdata_cr_only last_bare_lf csize_leading_crlf csize_junk_then_ext trailer_bare_lf trailer_no_colon trailer_ws_before_colon
+ cdata_no_crlf cdata_lf_only cdata_cr_only last_bare_lf csize_leading_crlf csize_junk_then_ext
+ name_separator trailer_separator_in_name cext_separator_in_name trailer_bare_lf trailer_no_colon trailer_ws_before_colon
  trailer_bad_name trailer_end_lf trailer_ctl""".split())
 ACCEPT_VARIANTS = set("""te_case te_pad cl_leading_zeros cl_underscore_alias te_underscore_alias csize_upper
  csize_leading_zeros cext_valid_token cext_valid_noval cext_valid_quoted last_ext last_00 trailer_valid""".split())
@@ -198,9 +200,12 @@ def apply_mutation(m, label, W):
     elif label in ("hdr_bare_lf_term", "hdr_bare_cr_term"):
         i = W.draw(len(fields))
         ov.setdefault("line_term", {})[i] = b"\n" if label == "hdr_bare_lf_term" else b"\r"
+        if i > 0 and fields[i][0] is not None and W.chance(0.5):
+            # the offending line gets quoted in the server's diagnostics: give it bytes that are not valid UTF-8
+            fields[i] = (fields[i][0], W.choice([b"\xe9t\xe9", b"\xff", b"a\x80b", b"\xc3(", b"caf\xe9"]))
     elif label in ("hdr_lf_in_value", "hdr_cr_in_value"):
         ch = b"\n" if label == "hdr_lf_in_value" else b"\r"
-        fields.insert(1 + W.draw(len(fields)), (b"X-Inj", b"a" + ch + b"Content-Length: 0"))
+        fields.insert(1 + W.draw(len(fields)), (b"X-Inj", W.choice([b"a", b"\xe9", b"\xff\xfe"]) + ch + b"Content-Length: 0"))
     elif label == "head_end_lflf":
         ov["head_end"] = b"\n"
         ov.setdefault("line_term", {})[len(fields) - 1] = b"\n"
@@ -212,6 +217,15 @@ def apply_mutation(m, label, W):
         if W.chance(0.4):
             fields.append((b"Content-Length", b"0"))
             ov["colon"][len(fields) - 1] = b" :"
+    elif label == "name_separator":
+        # every RFC 9110 delimiter, at the start, in the middle or at the end of an otherwise valid name
+        sep = W.choice(SEPARATORS)
+        base = W.choice([b"X-Sep", b"Content-Length", b"X-Forwarded-For", b"Transfer-Encoding"])
+        pos = W.draw(3)
+        nm = sep + base if pos == 0 else (base[:3] + sep + base[3:] if pos == 1 else base + sep)
+        if sep == b":" and pos != 0:
+            nm = b":" + base  # (a colon inside or after the name is just the field separator)
+        fields.insert(1, (nm, b"1"))
     elif label == "name_space":
         fields.insert(1, (b"X Bad", b"v"))
     elif label == "name_empty":
@@ -226,6 +240,8 @@ def apply_mutation(m, label, W):
         V = either(dontcare=("fields",))
     elif label == "ws_first_header_line":
         ov["first_line_ws"] = W.choice([b" ", b"\t"])
+        if W.chance(0.5):
+            fields[0] = (fields[0][0], W.choice([b"ex\xe4mple.com", b"\xff.example"]))
         V = either(dontcare=("fields",))
     elif label == "ctl_in_value":
         fields.insert(1, (b"X-Ctl", b"a" + W.choice([b"\x01", b"\x7f", b"\x0b", b"\x0c", b"\x1f"]) + b"b"))
@@ -418,6 +434,12 @@ def apply_mutation(m, label, W):
             m["trailers"] = [b"X-T : v"]
         elif label == "trailer_bad_name":
             m["trailers"] = [W.choice([b"X T: v", b": v", b"X(T): v"])]
+        elif label == "trailer_separator_in_name":
+            sep = W.choice([x for x in SEPARATORS if x != b":"])
+            m["trailers"] = [W.choice([b"X" + sep + b"T: v", sep + b"XT: v", b"XT" + sep + b": v"])]
+        elif label == "cext_separator_in_name":
+            sep = W.choice([x for x in SEPARATORS if x not in (b";", b"=", b'"')])
+            c["ext"] = W.choice([b";a" + sep + b"b=1", b";" + sep + b"a=1", b";a" + sep])
         elif label == "trailer_obs_fold":
             m["trailers"] = [b"X-T: a\r\n b"]
             V = either()
